@@ -46,14 +46,14 @@ Print Assumptions C08_parse_agrees_printed_partial.
 
 (* ---- the reader against std_eval DIRECTLY, by induction on the s-expression (any depth).
    C08_machine_simple: the stack machine does what the recursive reading [elab] does, for every
-   s-expression built from atoms and applications, whatever the stack, the state and the tokens that
-   follow.  C08_parse_agrees_core_partial: on the Core fragment [core] (true, false, declared Bool
+   s-expression built from atoms, applications, quantifiers (any binder list) and applications of an
+   indexed identifier, whatever the stack, the state and the tokens that follow.  C08_parse_agrees_core_partial: on the Core fragment [core] (true, false, declared Bool
    constants, and / or with >= 2 arguments, =>, not over a non-negation, ite and = on Booleans),
    whenever that reading succeeds the machine returns its result, a term of sort Bool that denotes
    what core/SmtStd.v says the text denotes.  Outside the proved fragment: arithmetic and every
    operator that goes through fix_real (needs the sorted induction: std_eval is untyped and the
-   parser may coerce Int constants), let and quantifiers (the handlers are not yet in the machine
-   lemma), define-fun.  Those stay carried by the correspondence and harness/c08_ref.py. *)
+   parser may coerce Int constants), let (its handler is not yet in the machine lemma), quantifiers in
+   the std_eval theorem, define-fun.  Those stay carried by the correspondence and harness/c08_ref.py. *)
 Theorem C08_machine_simple : forall x, simpleb x = true ->
   forall fuel' stk s i s' rest,
     elab x s = ROk i s' -> toks s = (flatten x ++ rest)%list ->
